@@ -54,6 +54,7 @@ type Contract struct {
 	Inline   bool
 	Opaque   bool
 	Trusted  bool
+	Timeout int // `timeout N`: solver budget in seconds for the obligations of this unit (default: the tier's)
 	Recursive bool // `recursive` (with pure): uninterpreted function with its defining equation unfolded once per use
 	Function bool // `function`: results are a deterministic (uninterpreted) function of the arguments
 	Abstract bool
@@ -447,7 +448,7 @@ func stripSpecPrefix(line string) (string, bool) {
 
 var clauseKeywords = map[string]bool{"requires": true, "ensures": true, "modifies": true, "loop": true, "inline": true,
 	"opaque": true, "trusted": true, "abstract": true, "func": true, "lemma": true, "pure": true, "assert": true,
-	"bounded": true, "ghost": true, "noframe": true, "allocates": true, "each": true, "usebody": true, "uses": true, "hide": true, "preserves": true, "cases": true, "abstractrem": true, "trustcall": true, "havocs": true, "partial": true, "function": true, "havoccalls": true, "abstractcall": true, "recursive": true, "override": true, "extend": true, "untrusted": true}
+	"bounded": true, "ghost": true, "noframe": true, "allocates": true, "each": true, "usebody": true, "uses": true, "hide": true, "preserves": true, "cases": true, "abstractrem": true, "trustcall": true, "havocs": true, "partial": true, "function": true, "havoccalls": true, "abstractcall": true, "recursive": true, "override": true, "extend": true, "untrusted": true, "timeout": true}
 
 // ParseContracts scans a Go source file for //@ blocks.
 func ParseContracts(fset *token.FileSet, filename string, src []byte, cs *ContractSet) error {
@@ -592,6 +593,12 @@ func ParseContracts(fset *token.FileSet, filename string, src []byte, cs *Contra
 				cur.Trusted = true
 			case "untrusted":
 				cur.Trusted = false
+			case "timeout":
+				n, err := strconv.Atoi(rest)
+				if err != nil {
+					return fmt.Errorf("%s: timeout needs a number of seconds", where)
+				}
+				cur.Timeout = n
 			case "function":
 				cur.Function = true
 			case "recursive":
